@@ -161,6 +161,7 @@ class Task:
         self.spin_n = 0
         self.spun = False
         self.in_py_tick = False
+        self.low = False
         self.timeout_at = None       # armed by gevent_shim.Timeout
         self.timeout_obj = None
         self.greenlet = False
@@ -250,6 +251,8 @@ class Sim:
         self.probes = {}
         self.preempt_at = set()
         self.fine_interleave = 0     # n > 0: after every tick switch with probability 1/n
+        self.fine_filter = None      # optional predicate(task): restrict the fine-grained mode to some threads
+        self.fine_long = False       # fine-grained mode: a pre-empted thread resumes only when all others have blocked
         self.py_ticks = False        # True: eval-breaker points inside monitored Python code are ticks too (simkit.preempt)
         self.spin_limit = 2000
         self.spin_cost = 0.02
@@ -402,6 +405,12 @@ class Sim:
             if self.steps > self.max_steps:
                 self.stopped_reason = "step-cap"
                 break
+            hi = [x for x in ready if not x.low]
+            if hi:
+                ready = hi
+            else:
+                for x in ready:
+                    x.low = False
             if len(ready) == 1:
                 t = ready[0]
             else:
@@ -521,9 +530,14 @@ class Sim:
         if self.tickn in self.preempt_at:
             self.fault("forced_preemption")
             self.yield_now()
-        elif self.fine_interleave and self.choices.coin(1, self.fine_interleave, "fine"):
-            # fine-grained mode (a fraction of the runs): any simulated system call may be followed by a switch
+        elif self.fine_interleave and (self.fine_filter is None or self.fine_filter(t)) \
+                and self.choices.coin(1, self.fine_interleave, "fine"):
+            # fine-grained mode (a fraction of the runs): any simulated system call may be followed by a switch.
+            # In 'long' mode the pre-empted thread stays descheduled until every other thread has blocked (a PCT-style
+            # priority drop): that is what exposes races that need the other side to run a long stretch undisturbed.
             self.fault("fine_interleave_switch")
+            if self.fine_long:
+                t.low = True
             self.yield_now()
         if t.is_main and t.proc.pending:
             self.deliver_signals(t)
